@@ -40,6 +40,9 @@ def enc(case):
         "blocks": [[fs(r), fs(d), int(bool(jp)), fs(il)] for r, d, jp, il in case["blocks"]],
         "objs": [[fs(s), fs(d)] for s, d in case["objs"]],
         "origin": case.get("origin", ""),
+        **({"exact": {"blocks": [[fs(t), fs(d)] for t, d in case["exact"]["blocks"]],
+                      "object_durations": [fs(d) for d in case["exact"]["objs"]], "bound_units": case["exact"]["m"]}}
+           if case.get("exact") else {}),
     }
 
 
@@ -380,6 +383,7 @@ def gen_timeline(rng, k, n, typ, tiny=False, conv="nearest"):
         else:
             dur = total + rng.choice([unit * _ratio(rng, F(1, 10), 3), _ratio(rng, 0, 2)])
         objs.append((start, dur))
+    exact_rec = {"blocks": [(r, d) for r, d, _, _, _ in exact], "objs": [d for _, d in objs], "m": m}
     pick = (lambda: "n") if conv == "nearest" else (lambda: rng.choice("nfc"))
     blocks = []
     for r, d, jp, il, force in exact:
@@ -387,7 +391,53 @@ def gen_timeline(rng, k, n, typ, tiny=False, conv="nearest"):
         blocks.append((rnd(r, k, pick()), rnd(d, k, md), jp, rnd(il, k, mi)))
     objs = [(rnd(s, k, pick()), rnd(d, k, pick())) for s, d in objs]
     origin = "rounded" + ("" if conv == "nearest" else "-" + conv) + ("-tiny" if tiny else "")
-    return {"typ": typ, "k": k, "blocks": blocks, "objs": objs, "origin": origin, "conv": conv}
+    return {"typ": typ, "k": k, "blocks": blocks, "objs": objs, "origin": origin, "conv": conv, "exact": exact_rec}
+
+
+def written(typ, k, exact_blocks, exact_objs, conv="nearest", origin=None):
+    """A case from explicit exact values [(rtime, duration, jp, il)], [(start, duration)], every value written with k
+    decimals to nearest (the same `rnd` the generator applies)."""
+    m = 1 if conv == "nearest" else 2
+    blocks = [(rnd(r, k), rnd(d, k), jp, rnd(il, k)) for r, d, jp, il in exact_blocks]
+    objs = [(rnd(s_, k), rnd(d, k)) for s_, d in exact_objs]
+    tiny = any(d <= m * F(1, 10**k) for _, d, _, _ in exact_blocks)
+    return {"typ": typ, "k": k, "blocks": blocks, "objs": objs, "conv": conv,
+            "origin": origin or ("rounded" + ("-tiny" if tiny else "")),
+            "exact": {"blocks": [(r, d) for r, d, _, _ in exact_blocks], "objs": [d for _, d in exact_objs], "m": m}}
+
+
+def witness_case():
+    """The recorded finding `rounded-short-block-collapse` (Lean: Earverif.TimingFix.excluded_rounded_short_block):
+    k = 2, exact blocks (0, 0.9951), (0.9951, 0.0098) in an object of duration 1.0049 -> (0, 1.00), (1.00, 0.01),
+    object duration 1.00."""
+    return written("O", 2, [(F(0), F(9951, 10000), False, None), (F(9951, 10000), F(98, 10000), False, None)],
+                   [(None, F(10049, 10000))])
+
+
+KNOWN_COLLAPSE = "rounded-short-block-collapse"
+
+
+def short_block_collapse(case):
+    """Independent classifier of the recorded finding, computed from the exact and the written values only (never from
+    what the code did): some block's EXACT duration is not longer than the bound the theorems need (one rounding unit
+    for nearest, two for floor/ceil/mixed) AND in the written document a block starts at or after the end of an object
+    referencing the channel, or two neighbouring blocks coincide / cross (rtime not increasing)."""
+    ex = case.get("exact")
+    if not ex or case.get("k") is None:
+        return False
+    bound = ex["m"] * F(1, 10 ** case["k"])
+    if not any(d <= bound for _, d in ex["blocks"]):
+        return False
+    bl = case["blocks"]
+    if any(b[0] is None for b in bl):
+        return False
+    at_end = any(D is not None and b[0] >= D for _, D in case["objs"] for b in bl)
+    coincide = any(a[0] >= b[0] for a, b in zip(bl[:-1], bl[1:]))
+    return at_end or coincide
+
+
+def is_tiny(case):
+    return case.get("origin", "").endswith("-tiny")
 
 
 _CONVS = ["nearest"] * 9 + ["mixed"] * 8 + ["ilceil"] * 3
@@ -442,6 +492,7 @@ def gen_outside(rng, k):
         c["objs"] = [(c["objs"][0][0], None)]
     c["blocks"] = [tuple(b) for b in bl]
     c["origin"] = "outside:" + kind
+    c.pop("exact", None)  # the written values were edited by hand: no longer the rounding of that exact timeline
     return c
 
 
@@ -644,6 +695,7 @@ def gen_doc(rng, k):
             tracks[rng.randrange(len(tracks))] = None  # silent track: the channel is still allocated
         rng.shuffle(tracks)
         dsel = rng.random()
+        cut = False
         if dsel < 0.3 or not cov:
             dur = None
         elif dsel < 0.7:
@@ -652,8 +704,10 @@ def gen_doc(rng, k):
             dur = max(ends[ci] for ci in cov) + rng.choice([unit * rng.randint(1, 3), _ratio(rng, 0, 2)])
         else:
             dur = min(ends[ci] for ci in cov) - rng.choice([F(0), unit, unit * 7])  # may cut into / before a last block
+            cut = True  # on purpose NOT a valid timeline: the object ends before (some of) its channels do
         start = rng.choice([None, None, F(0), _ratio(rng, 0, 5)])
-        objs.append({"start": rnd(start, k), "duration": rnd(dur, k), "packs": mine, "tracks": tracks, "children": []})
+        objs.append({"start": rnd(start, k), "duration": rnd(dur, k), "packs": mine, "tracks": tracks, "children": [],
+                     "cut": cut})
         covers.append(cov)
     origin = "doc"
     if rng.random() < 0.12:
@@ -848,10 +902,14 @@ def doc_excluded(d):
     if any(o["children"] and (o["start"] is not None or o["duration"] is not None) for o in d["objs"]):
         return "nested-parent-with-timing"
     for ci, c in enumerate(d["chans"]):
-        objs = [(o["start"], o["duration"]) for o, cov in zip(d["objs"], d["covers"]) for x in cov if x == ci]
-        e = classify({"blocks": c["blocks"], "objs": objs})
+        mine = [o for o, cov in zip(d["objs"], d["covers"]) for x in cov if x == ci]
+        e = classify({"blocks": c["blocks"], "objs": [(o["start"], o["duration"]) for o in mine]})
+        if e == "last-rtime-not-before-object-end" and not any(o.get("cut") for o in mine):
+            # document channels have exact durations above the rounding bound and every other object duration is at
+            # or beyond the end of all its channels: this cannot come from the generator's purpose-built short objects
+            return "UNEXPECTED:" + e
         if e:
-            return e
+            return e + (" (object built to end before its channels)" if e == "last-rtime-not-before-object-end" else "")
     return None
 
 
@@ -926,12 +984,23 @@ class C15(Spec):
             "smallDoc_fix_post", "selectPackMapping_leaf", "excluded_doc_conflicting_refs",
             "excluded_start_at_object_end", "excluded_negative_last_duration", "excluded_rtime_xor_duration",
             "excluded_two_untimed", "excluded_decreasing_rtimes",
+            # the recorded finding rounded-short-block-collapse: exact durations not above the rounding unit
+            "excluded_rounded_short_block", "shortExact_valid_but_short", "fix_raises_when_last_block_outside_object",
+            "fix_raises_rounded",
+            # the acceptance clause for documents with its HypAccept hypothesis explicit
+            "doc_fix_accepted",
+            # `accepted` = the outcome of the interpreter models C02/C03 render with (Model/Timeline.lean)
+            "accepted_eq_interpreters", "accepted_ok_iff_object", "accepted_ok_iff_fixed",
+            "fix_accepted_by_timeline_interpreters",
         )
     )
     trusted_base = (
         "model Earverif/Model/TimingFix.lean is a hand transliteration of timing_fixes.py (fix=True paths), "
         "InterpretTimingMetadata.block_start_end and the interpolation checks of InterpretObjectMetadata.__call__, "
-        "per audioChannelFormat; warnings are modelled as a returned list of (kind, block index)",
+        "per audioChannelFormat; warnings are modelled as a returned list of (kind, block index); the acceptance model "
+        "`accepted` is proved (accepted_eq_interpreters) to be the exception behaviour of the C02/C03 interpreter models "
+        "Timeline.interpObject / Timeline.interpFixed on the same blocks at every sample rate, so there is one model of "
+        "the renderer's timing checks, tied to the code both here (verdict diff) and by C02/C03",
         "the (audioObject, audioChannelFormat) pairing of check_blockFormat_times_for_audioObjects is modelled "
         "(Model/TimingFixDoc.lean: ObjectChannelMatcher = the C06/C07 pack-allocator model on the audioObject's own "
         "references) for documents with Objects/DirectSpeakers packs (nested packs, shared and silent tracks, several "
@@ -946,6 +1015,15 @@ class C15(Spec):
         "mixed timed+untimed blocks (renderer: overlapping blocks), decreasing rtimes (negative durations), negative "
         "last duration with jumpPosition or an untimed block under an object of negative duration (renderer: "
         "interpolation length longer than block)",
+        "ROUNDING: every *_meets_hypotheses theorem needs each EXACT block duration to be longer than the rounding unit "
+        "10^-k (nearest) resp. two units 2*10^-k (floor / ceil / per-value mixed): ExactValid.long.  Valid exact timelines "
+        "with a shorter block are inside the property's quantifier but outside the theorems; there the property can FAIL "
+        "(the written last block lands on the written object end => fix_blockFormat_timings raises ValueError: "
+        "excluded_rounded_short_block, fix_raises_rounded).  The check evaluates the property on them on every run "
+        "(generator family tiny=True + the deterministic witness) and reports failures as hits; they are the recorded "
+        "finding rounded-short-block-collapse only when the independent classifier short_block_collapse (exact duration <= "
+        "bound AND a written block starts at/after a written object end or neighbouring written rtimes coincide/cross) "
+        "holds, otherwise an unlisted violation",
         "first-run warning kinds are compared with the model but a difference is only recorded "
         "(distribution key firstrun-warnings:differ), since the property speaks only about the second run's warnings",
     )
@@ -1011,6 +1089,18 @@ class C15(Spec):
             for what, detail in predicate(c, r):
                 tags = ["c15-predicate"]
                 ctx.hit(what, {"cases": [enc(x) for x in group]} if multi else enc(c), detail, tags)
+        elif is_tiny(c) and excl in ("last-rtime-not-before-object-end", "rtimes-decreasing"):
+            # INSIDE the property's quantifier (a valid exact timeline written with k decimals) but outside the
+            # theorems' duration bound (ExactValid.long): the property is evaluated, not skipped.  A failure is the
+            # recorded finding only if the independent classifier (exact + written values) says so.
+            fails = predicate(c, r)
+            collapse = short_block_collapse(c)
+            outcome = r["status"] if r["status"] != "ok" else "repaired-then-" + ",".join(sorted(set(r["post"])))
+            ctx.count("short-exact-block:%s => %s%s" % (excl, outcome.split(":")[0], "" if fails else " (property holds)"))
+            for what, detail in fails:
+                tags = ["c15-predicate", KNOWN_COLLAPSE if collapse else "short-block-not-classified"]
+                ctx.hit(what + " (rounded timeline with an exact duration not above the rounding bound: " + excl + ")",
+                        {"cases": [enc(x) for x in group]} if multi else enc(c), detail, tags)
         else:
             outcome = r["status"] if r["status"] != "ok" else "repaired-then-" + ",".join(sorted(set(r["post"])))
             ctx.count("excluded-point:%s => %s" % (excl, outcome.split(":")[0]))
@@ -1086,6 +1176,11 @@ class C15(Spec):
             O([(None, None, True, F(2))], [(F(1), F(1))]),
             # excluded: last block starts exactly at the object's end
             O([(F(0), F(1, 2), False, None), (F(1, 2), F(1, 2), False, None)], [(None, F(1, 2))], origin="outside:start-at-end"),
+            # the recorded finding rounded-short-block-collapse, evaluated on every run (deterministic probe)
+            witness_case(),
+            # same exact timeline with the last block just above the unit (0.0102): inside ExactValid, repaired
+            written("O", 2, [(F(0), F(9951, 10000), False, None), (F(9951, 10000), F(102, 10000), False, None)],
+                    [(None, F(10053, 10000))]),
         ]
 
     def correspond(self, ctx):
@@ -1171,6 +1266,14 @@ class C15(Spec):
             else:
                 outcome = r["status"] if r["status"] != "ok" else "repaired"
                 ctx.count("doc:excluded-point:%s => %s" % (excl, outcome.split(":")[0]))
+                if excl.startswith("UNEXPECTED:"):
+                    # inside the quantifier after all: the property is evaluated, not skipped
+                    try:
+                        fails = doc_predicate(d, r)
+                    except Exception as e:
+                        fails = [("item selection / interpretation of the repaired document raised", "%s: %s" % (type(e).__name__, e))]
+                    for what, detail in fails:
+                        ctx.hit(what + " (" + excl + ")", enc_doc(d), detail, ["c15-predicate", "document"])
             if o is None:
                 continue
             m = parse_doc_model(o)
@@ -1383,13 +1486,16 @@ class C15(Spec):
                                   conv=rng.choice(_CONVS)) for _ in range(rng.randint(1, 4))]
             else:
                 g = [gen_timeline(rng, k, rng.choice([1, 2, 3, 5, 9, 17, 30]), rng.choice("OOD"), conv=rng.choice(_CONVS))]
+            # rounded timelines with a short exact block that fall outside the hypotheses stay in the search (they are
+            # inside the property's quantifier), each in a document of its own: a raising repair aborts the whole document
+            short = [c for c in g if is_tiny(c) and classify(c) in ("last-rtime-not-before-object-end", "rtimes-decreasing")]
             g = [c for c in g if classify(c) is None]
-            if not g:
+            if not g and not short:
                 continue
-            for c in g:
+            for c in g + short:
                 c["origin"] = "search-" + c["origin"]
-            self._run_batch(ctx, None, [g], use_model=False)
-            done += len(g)
+            self._run_batch(ctx, None, ([g] if g else []) + [[c] for c in short], use_model=False)
+            done += len(g) + len(short)
         self._documents(ctx, None, 1500 if deep else 60, use_model=False)
         if deep:
             # the reader option must keep working (it was missing once: fixed finding 1d5dfa7)
@@ -1399,22 +1505,35 @@ class C15(Spec):
 SPEC = C15()
 
 REGISTRY = dict(
-    text="FULL: Lean theorems (Earverif.TimingFix.fix_ok, fix_rtime_unchanged, fix_contiguous, fix_interp_le_duration, "
+    text="FULL for exact durations > one rounding unit (two for floor/ceil/mixed); shorter blocks can collapse onto the "
+    "object end => the repair raises ValueError (recorded finding rounded-short-block-collapse: "
+    "excluded_rounded_short_block is the kernel-checked witness k=2, (0,0.9951),(0.9951,0.0098), object 1.0049 -> "
+    "(0,1.00),(1.00,0.01), object 1.00; fix_raises_when_last_block_outside_object / fix_raises_rounded the general "
+    "statement: all blocks timed, last written rtime >= a written object duration, last written duration > 0 => "
+    "ValueError; the check evaluates the property on this family and on the witness on every run and reports failures "
+    "as hits classified by an independent classifier over exact+written values). "
+    "Lean theorems (Earverif.TimingFix.fix_ok, fix_rtime_unchanged, fix_contiguous, fix_interp_le_duration, "
     "fix_within_object, fix_accepted_by_renderer, fix_idempotent, fix_second_run_silent) prove for every channel whose "
     "blocks are all timed with weakly increasing rtimes and last rtime before every object's end (or a single untimed "
     "block) that the model of fix_blockFormat_timings succeeds, leaves rtimes unchanged, makes blocks contiguous, "
     "interpolation lengths <= durations, blocks inside every referencing object, the model of the renderer's timing "
-    "checks accept the channel, and a second repair returns the same blocks with no warnings. "
-    "doc_fix_post / doc_fix_idempotent_silent lift this to whole documents: the model of "
+    "checks accept the channel (accepted_eq_interpreters: this acceptance model IS the exception behaviour of the C02/C03 "
+    "interpreter models Timeline.interpObject/interpFixed at every sample rate; fix_accepted_by_timeline_interpreters "
+    "states the clause on them), and a second repair returns the same blocks with no warnings. "
+    "doc_fix_post / doc_fix_accepted (acceptance, with its extra hypothesis HypAccept = last duration >= 0 explicit) / "
+    "doc_fix_idempotent_silent lift this to whole documents: the model of "
     "check_blockFormat_times_for_audioObjects' traversal (ObjectChannelMatcher = the C06/C07 pack-allocator model run on "
     "each audioObject's own audioPackFormat/audioTrackUID references; nested audioObjects are not followed) is proved "
     "(docFix_channel, docFix_ok, docFix_stable) to act on every audioChannelFormat as the per-channel model with objs = "
     "the audioObjects whose allocation contains it, so the object-to-channel pairing is computed, not assumed; "
     "selectPackMapping_leaf shows the renderer pairs a leaf audioObject with the same channels. "
-    "rounding_meets_hypotheses with the instances roundHalfEven_meets_hypotheses (Python round = half-even, what the "
-    "generator applies), floorDec_/ceilDec_meets_hypotheses and mixed_rounding_meets_hypotheses (each value "
-    "independently nearest/truncated/rounded up, exact durations above two units) show that rounding a valid exact "
-    "timeline to k decimals lands inside these hypotheses. fixDurationsOnly_spec proves what the deprecated reader "
+    "Rounding (each needs the EXACT durations above the stated bound, ExactValid.long): rounding_meets_hypotheses (any "
+    "monotone rounding with error <= e/2: durations > e), rounding_meets_hypotheses_dec and "
+    "roundHalfEven_meets_hypotheses (Python round = half-even, what the generator applies: durations > 10^-k), "
+    "floorDec_meets_hypotheses and ceilDec_meets_hypotheses (durations > 2*10^-k), perturbation_meets_hypotheses (any "
+    "per-value error <= delta: durations > 2*delta) and mixed_rounding_meets_hypotheses (each value independently "
+    "nearest/truncated/rounded up: durations > 2*10^-k) show that rounding such a valid exact timeline to k decimals "
+    "lands inside these hypotheses; below the bound the property can fail (see the first sentence). fixDurationsOnly_spec proves what the deprecated reader "
     "option (fix_block_format_durations=True runs only fix_blockFormat_durations) guarantees: rtimes unchanged, "
     "contiguous, idempotent, = first stage of the full repair; durationsOnly_leaves_interp_too_long and "
     "durationsOnly_leaves_block_past_object prove that it does NOT repair interpolation lengths or the object clamp "
@@ -1426,7 +1545,12 @@ REGISTRY = dict(
     "Lean rounding functions are diffed against the generator's; all entry points (library, ear-render and ear-utils "
     "options, reader option of load_axml_string/openBw64Adm) are run in-process.",
     note="Trusted: Lean kernel, hand transliteration of timing_fixes.py and the interpreters' timing checks + "
-    "correspondence harness; the pack allocator model is C06/C07's. Excluded points (stated as hypotheses, run on the "
+    "correspondence harness; the pack allocator model is C06/C07's. INSIDE the quantifier but outside the theorems "
+    "(recorded finding, not an excluded point): rounded timelines with an exact block duration <= 10^-k (nearest) / "
+    "2*10^-k (floor, ceil, mixed); the check counts them under short-exact-block:* and reports every property failure "
+    "among them (KNOWN-FINDING line when the independent classifier short_block_collapse holds, VIOLATION otherwise); "
+    "with per-value mixed conventions such short blocks can also cross (written rtimes decreasing), which the classifier "
+    "covers too. Excluded points (stated as hypotheses, run on the "
     "real code and counted): last block starting at/after the object's end (ValueError), rtime xor duration, "
     "several/mixed untimed blocks, decreasing rtimes, negative last duration, an audioObject with a duration whose "
     "references are conflicting/ambiguous (AdmFormatRefError escapes from the repair: excluded_doc_conflicting_refs). "
